@@ -149,7 +149,8 @@ def Valid (st : RepairSt) : Resp → Prop
   | .lastRoot (.last b) l root π => checkProofLast root l b.hash π = true
   | .sliceRoot (.root b i) root π => checkProof root i b.hash π = true
   | .shred (.shred b i j) slot s sigOk =>
-    slot = b.slot ∧ s.slice = i ∧ s.idx = j ∧ rootGet st.sliceRoots (b, i) = some s.root ∧ sigOk = true
+    slot = b.slot ∧ s.slice = i ∧ s.idx = j ∧ rootGet st.sliceRoots (b, i) = some s.root ∧
+      s.isLast = decide (lastGet st.lastSlices b = some i) ∧ sigOk = true
   | _ => False
 
 /-- every outstanding shred request has its slice root proven (what makes `unreachable!` unreachable) -/
@@ -158,7 +159,8 @@ def RootsKnown (st : RepairSt) : Prop :=
 
 /-- **A response that fails validation changes nothing (fix D4)** — wrong variant, invalid or
     truncated or foreign proof, wrong root, wrong or aliased last-slice index, shred with wrong
-    slot / slice / index / root or without the leader's signature: requester state (in particular the
+    slot / slice / index / root, with a last-slice flag that disagrees with the proven last slice
+    index (fix D26), or without the leader's signature: requester state (in particular the
     outstanding request and its pending timeout), blockstore and outputs are untouched, and the
     repair task does not panic. -/
 theorem invalid_response_inert (env : Nat → Content) (cap : Nat) (st : RepairSt) (store : Store) (resp : Resp)
@@ -197,12 +199,16 @@ theorem invalid_response_inert (env : Nat → Content) (cap : Nat) (st : RepairS
             · rename_i hr
               split
               · rfl
-              · rename_i hs
-                exfalso; apply hv
-                simp only [Valid]
-                simp only [not_or, Decidable.not_not] at hidx
-                simp only [Decidable.not_not] at hr
-                refine ⟨hidx.1, hidx.2.1, hidx.2.2, by rw [hroot, hr], by simpa using hs⟩
+              · rename_i hl
+                split
+                · rfl
+                · rename_i hs
+                  exfalso; apply hv
+                  simp only [Valid]
+                  simp only [not_or, Decidable.not_not] at hidx
+                  simp only [Decidable.not_not] at hr
+                  simp only [ne_eq, Decidable.not_not] at hl
+                  refine ⟨hidx.1, hidx.2.1, hidx.2.2, by rw [hroot, hr], hl, by simpa using hs⟩
       | last _ => rfl
       | root _ _ => rfl
 
@@ -337,9 +343,11 @@ theorem handleResponse_tracked (env : Nat → Content) (cap : Nat) (st : RepairS
             · exact h
             · split
               · exact h
-              · have hd := done_tracked st (.shred b i j) h
-                repeat' split
-                all_goals exact hd
+              · split
+                · exact h
+                · have hd := done_tracked st (.shred b i j) h
+                  repeat' split
+                  all_goals exact hd
       | last _ => exact h
       | root _ _ => exact h
 
@@ -516,9 +524,11 @@ theorem handleResponse_rootsKnown (env : Nat → Content) (cap : Nat) (st : Repa
             · exact h
             · split
               · exact h
-              · have hd := done_rootsKnown st (.shred b i j) h
-                repeat' split
-                all_goals exact hd
+              · split
+                · exact h
+                · have hd := done_rootsKnown st (.shred b i j) h
+                  repeat' split
+                  all_goals exact hd
       | last _ => exact h
       | root _ _ => exact h
 
